@@ -51,6 +51,19 @@ RI_TOL = {"float32": 1e-6, "float64": 1e-12}
 FLOOR = 1e-2
 
 
+def warmup():
+    """Heavy imports and first-use costs (sympy, lambdify, autograd) before any per-case watchdog is armed."""
+    import sympy as sp
+    from torchphysics.utils import differentialoperators  # noqa: F401
+    ref = X.Reference([("x", 1)])
+    i = ref.add_base(["sin", ["mul", ["v", "x", 0], ["v", "x", 0]]])
+    ref.d(ref.d(i, ("x", 0)), ("x", 0))
+    ref.compile()
+    ref.validate({("x", 0): np.linspace(-1.0, 1.0, 5)})
+    x = torch.ones(2, 1, requires_grad=True)
+    torch.autograd.grad((x * x).sum(), x, create_graph=True)
+
+
 # ---------------------------------------------------------------------------------------------
 # workload
 # ---------------------------------------------------------------------------------------------
@@ -68,7 +81,7 @@ def _templates(rng, n, has_other, n_dvars):
 def _gen_one(rng, op, tier, i):
     deep = tier != "quick"
     names = list(rng.permutation(NAMES)[:3])
-    nvars = int(rng.choice([1, 2, 3], p=[0.3, 0.45, 0.25]))
+    nvars = int(rng.choice([1, 2, 3], p=[0.25, 0.4, 0.35]))
     dims = [int(rng.integers(1, 4)) for _ in range(nvars)]
     order = None
     if op == "partial":
@@ -87,11 +100,11 @@ def _gen_one(rng, op, tier, i):
     elif op == "rot":
         deriv = [vars_[j][0] for j in range(len(split))]
     else:
-        k = int(rng.integers(1, nvars + 1))
+        k = nvars if rng.random() < 0.45 else int(rng.integers(1, nvars + 1))
         deriv = [vars_[int(j)][0] for j in rng.permutation(nvars)[:k]]
-        if op in ("sym_grad", "matrix_div", "div", "convective", "jac") and rng.random() < 0.5:
-            # keep the total dimension moderate for the vector/matrix operators
-            while sum(v[1] for v in vars_ if v[0] in deriv) > 4 and len(deriv) > 1:
+        if op in ("sym_grad", "matrix_div") and rng.random() < 0.5:
+            # keep the total dimension moderate for the matrix valued operators
+            while sum(v[1] for v in vars_ if v[0] in deriv) > 5 and len(deriv) > 1:
                 deriv.pop()
     for v in vars_:
         if v[0] not in deriv and rng.random() < 0.3:
